@@ -58,7 +58,7 @@ package keeper
 //@   ensures !res.IsNil()
 //@   ensures current >= vestingPool.LockEnd ==> res == vestingPool.InitiallyLocked - vestingPool.Sent - vestingPool.Withdrawn
 //@   ensures current < vestingPool.LockEnd ==> res == 0
-//@   prop C06
+//@   prop C06 C20
 //@
 //@ spec func wdOf(il int, s int, w int, le int, t int) int = t >= le ? il - s - w : 0
 //@ // total withdrawable of the first n pools of a row
@@ -95,7 +95,7 @@ package keeper
 //@   ensures returnedError == nil && fromBech32(owner) != modaddr("cfevesting") ==> $bal[modaddr("cfevesting")][$vestingDenom] == old($bal[modaddr("cfevesting")][$vestingDenom]) - withdrawn.Amount
 //@   ensures returnedError == nil && fromBech32(owner) != modaddr("cfevesting") ==> $bal[fromBech32(owner)][$vestingDenom] == old($bal[fromBech32(owner)][$vestingDenom]) + withdrawn.Amount
 //@   ensures forall a: str :: {$bal[a]} a != modaddr("cfevesting") && a != fromBech32(owner) ==> $bal[a] == old($bal[a])
-//@   prop C06 C05
+//@   prop C06 C05 C20
 //@ loop Keeper.WithdrawAllAvailable#1
 //@   invariant 0 <= \i && \i <= len(accVestingPools.VestingPools)
 //@   invariant !toWithdraw.IsNil() && toWithdraw == sumWd($pIL[owner], $pS[owner], $pW[owner], $pLockEnd[owner], $blockTime, \i) && toWithdraw >= 0
@@ -123,7 +123,7 @@ package keeper
 //@        && resp.VestingPools[i].CurrentlyLocked == intString($pIL[req.Owner][i] - $pS[req.Owner][i] - $pW[req.Owner][i])
 //@        && resp.VestingPools[i].Name == $pName[req.Owner][i] && resp.VestingPools[i].LockEnd == $pLockEnd[req.Owner][i])
 //@   ensures req == nil || !$pFound[req.Owner] ==> err != nil
-//@   prop C06
+//@   prop C06 C20
 //@ loop Keeper.VestingPools#1
 //@   invariant 0 <= \i && \i <= len(accountVestingPools.VestingPools) && len(result.VestingPools) == \i
 //@   invariant forall j :: {accountVestingPools.VestingPools[j]} 0 <= j && j < len(accountVestingPools.VestingPools) ==> poolEq(accountVestingPools.VestingPools[j], req.Owner, j)
@@ -152,7 +152,7 @@ package keeper
 //@     && $bal[accAddress][$vestingDenom] == old($bal[accAddress][$vestingDenom]) - amount
 //@   ensures forall a: str :: {$bal[a]} a != modaddr("cfevesting") && a != accAddress ==> $bal[a] == old($bal[a])
 //@   ensures forall d: str :: {$bal[modaddr("cfevesting")][d]} d != $vestingDenom ==> $bal[modaddr("cfevesting")][d] == old($bal[modaddr("cfevesting")][d])
-//@   prop C05
+//@   prop C05 C20
 
 //@ // ---- typed ghost views of vesting types and vesting-account traces (accessor contracts assumed) ----
 //@ ghost vtFound [str]bool
@@ -197,7 +197,7 @@ package keeper
 //@   ensures err == nil ==> acc != nil && isNewCVA(to, originalVesting, startTime, vestingEnd)
 //@   ensures err != nil ==> allAccountsUnchanged()
 //@   ensures otherAccountsUnchanged(to)
-//@   prop C09 C08
+//@   prop C09 C08 C20
 //@
 //@ func (k Keeper) newVestingAccount(ctx, toAddress, amount, free, lockEnd, vestingEnd) (err)
 //@   requires !amount.IsNil() && amount >= 0 && !free.IsNil() && 0 <= free && free <= P && timeOK(lockEnd) && timeOK(vestingEnd) && timeOK($blockTime)
@@ -217,7 +217,7 @@ package keeper
 //@   ensures err != nil ==> $bal == old($bal)
 //@   ensures forall a: str :: {$bal[a]} a != modaddr("cfevesting") && a != toAddress ==> $bal[a] == old($bal[a])
 //@   reveal chopRound
-//@   prop C08 C09
+//@   prop C08 C09 C20
 
 //@ // index of the last pool named `name` among the first n pools of a row (-1: none) — what the lookup loop selects
 //@ spec func lastNamed(names [int]str, name str, n int) int = n <= 0 ? -1 : (names[n - 1] == name ? n - 1 : lastNamed(names, name, n - 1))
@@ -260,7 +260,7 @@ package keeper
 //@     $bal[modaddr("cfevesting")][$vestingDenom] == old($bal[modaddr("cfevesting")][$vestingDenom]) - withdrawn.Amount - amount
 //@     && $bal[fromBech32(toAddr)][$vestingDenom] == old($bal[fromBech32(toAddr)][$vestingDenom]) + amount
 //@   ensures returnedError == nil ==> withdrawn.Amount == sumWd(old($pIL[owner]), old($pS[owner]), old($pW[owner]), old($pLockEnd[owner]), $blockTime, old($pLen[owner]))
-//@   prop C08 C09 C05 C17
+//@   prop C08 C09 C05 C17 C20
 //@ loop Keeper.SendToNewVestingAccount#1
 //@   invariant 0 <= \i && \i <= len(accVestingPools.VestingPools)
 //@   invariant lastNamed($pName[owner], vestingPoolName, \i) >= 0 ==> vestingPool == accVestingPools.VestingPools[lastNamed($pName[owner], vestingPoolName, \i)]
@@ -277,7 +277,7 @@ package keeper
 //@     (forall d: str :: {$bal[fromBech32(toAddress)][d]} $bal[fromBech32(toAddress)][d] == old($bal[fromBech32(toAddress)][d]) + amount[d])
 //@     && (forall d: str :: {$bal[fromBech32(fromAddress)][d]} $bal[fromBech32(fromAddress)][d] == old($bal[fromBech32(fromAddress)][d]) - amount[d])
 //@   ensures forall a: str :: {$bal[a]} a != fromBech32(fromAddress) && a != fromBech32(toAddress) ==> $bal[a] == old($bal[a])
-//@   prop C09 C08
+//@   prop C09 C08 C20
 //@
 //@ // the sender's own vesting account: only its OriginalVesting shrinks
 //@ func (k Keeper) UnlockUnbondedContinuousVestingAccountCoins(ctx, ownerAddress, amountToUnlock) (acc, err)
@@ -290,7 +290,7 @@ package keeper
 //@     && $accDF[ownerAddress] == old($accDF[ownerAddress]) && $accDV[ownerAddress] == old($accDV[ownerAddress])
 //@     && (forall d: str :: {$accOV[ownerAddress][d]} $accOV[ownerAddress][d] <= old($accOV[ownerAddress][d]))
 //@     && acc.StartTime == $accStart[ownerAddress] && acc.BaseVestingAccount != nil && acc.BaseVestingAccount.EndTime == $accEnd[ownerAddress]
-//@   prop C09 C07
+//@   prop C09 C07 C20
 //@ loop Keeper.UnlockUnbondedContinuousVestingAccountCoins#1
 //@   invariant vestingAcc != nil && vestingAcc.BaseVestingAccount != nil && vestingAcc.BaseVestingAccount.BaseAccount != nil
 //@   invariant vestingAcc.StartTime == $accStart[ownerAddress] && vestingAcc.BaseVestingAccount.EndTime == $accEnd[ownerAddress]
@@ -313,7 +313,7 @@ package keeper
 //@     && (forall d: str :: {$accOV[from][d]} $accOV[from][d] <= old($accOV[from][d]))
 //@   // C07 (structural part): the recipient is a new continuous vesting account holding `amount`, same end, start = max(now, sender start)
 //@   ensures err == nil && from != toAddress ==> isNewCVA(toAddress, amount, max(fdiv($blockTime, 1000000000), old($accStart[from])), old($accEnd[from]))
-//@   prop C09 C07
+//@   prop C09 C07 C20
 
 //@ // ---- C05: the locked sum of an owner, and how the three operations change it ----
 //@ spec func sumLocked(il [int]int, s [int]int, w [int]int, n int) int = n <= 0 ? 0 : sumLocked(il, s, w, n - 1) + il[n - 1] - s[n - 1] - w[n - 1]
@@ -352,7 +352,7 @@ package keeper
 //@     && (forall i :: {$pIL[addr][i]} 0 <= i && i < n ==> poolUnchanged(addr, i) && $pW[addr][i] == old($pW[addr][i])))
 //@   ensures err == nil && fromBech32(addr) != modaddr("cfevesting") ==>
 //@     $bal[modaddr("cfevesting")][$vestingDenom] == old($bal[modaddr("cfevesting")][$vestingDenom]) + amount
-//@   prop C05
+//@   prop C05 C20
 
 //@ // ---- C13: only governance changes the vesting denomination, and only while no pool exists ----
 //@ spec func vpKey() str = global("types.ParamsKey")
@@ -365,7 +365,7 @@ package keeper
 //@   ensures err != nil ==> kvUnchanged()
 //@   ensures err == nil ==> len(p.Denom) != 0 && $kvHas[storeOf(k.storeKey)][vpKey()] && $kvVal[storeOf(k.storeKey)][vpKey()] == encOf("types.Params", p.Denom)
 //@   ensures kvOnlyChanged(storeOf(k.storeKey), vpKey())
-//@   prop C13
+//@   prop C13 C20
 //@ func (k msgServer) UpdateDenomParam(goCtx, msg) (resp, err)
 //@   requires msg != nil
 //@   modifies $kvHas, $kvVal
@@ -375,7 +375,38 @@ package keeper
 //@   ensures err == nil ==> msg.Authority == k.authority && noPools() && len(msg.Denom) != 0
 //@     && $kvHas[storeOf(k.storeKey)][vpKey()] && $kvVal[storeOf(k.storeKey)][vpKey()] == encOf("types.Params", msg.Denom)
 //@   ensures kvOnlyChanged(storeOf(k.storeKey), vpKey())
-//@   prop C13
+//@   prop C13 C20
+
+//@ // ---- C20: entry points under the no-panic sweep (no functional claim here: they must not panic for any field values) ----
+//@ func (k Keeper) GenesisVestingsSummary(goCtx, req) (r0, r1)
+//@   prop C20
+//@ func (k Keeper) Params(c, req) (r0, r1)
+//@   prop C20
+//@ func (k Keeper) VestingType(goCtx, req) (r0, r1)
+//@   prop C20
+//@ func (k Keeper) VestingsSummary(goCtx, req) (r0, r1)
+//@   prop C20
+//@ func (k msgServer) CreateVestingAccount(goCtx, msg) (r0, r1)
+//@   requires msg != nil
+//@   prop C20
+//@ func (k msgServer) CreateVestingPool(goCtx, msg) (r0, r1)
+//@   requires msg != nil
+//@   prop C20
+//@ func (k msgServer) MoveAvailableVesting(goCtx, msg) (r0, r1)
+//@   requires msg != nil
+//@   prop C20
+//@ func (k msgServer) MoveAvailableVestingByDenoms(goCtx, msg) (r0, r1)
+//@   requires msg != nil
+//@   prop C20
+//@ func (k msgServer) SendToVestingAccount(goCtx, msg) (r0, r1)
+//@   requires msg != nil
+//@   prop C20
+//@ func (k msgServer) SplitVesting(goCtx, msg) (r0, r1)
+//@   requires msg != nil
+//@   prop C20
+//@ func (k msgServer) WithdrawAllAvailable(goCtx, msg) (r0, r1)
+//@   requires msg != nil
+//@   prop C20
 
 //@ // ---- declared effects (checked per call instruction by the effect checker; anything not listed is effect-free) ----
 //@ effects Keeper.CreateVestingAccount auth.setaccount bank.send
